@@ -15,14 +15,16 @@ Theorem C04_round_trip : forall alts l r, wf_heap l r = true -> F04 alts l = tru
 Proof. exact round_trip_iso. Qed.
 
 (* the invariant of the memoised walk, for both directions, over the whole recursion: from any state satisfying
-   Inv (memo values below the counter, memo injective, every allocated address a memo value) a call with enough fuel
+   Inv (memo values below the counter, memo injective, every allocated address a memo value, memo keys within the
+   reference-closed set Q, e.g. the objects reachable from the root) a call with enough fuel
    returns, the state is extended (old entries and old destination objects untouched; every entry registered during
    the call is done: its object is the image of the source object under the memo), and Inv holds again *)
-Theorem C04_memo_invariant : forall P src U,
-  (forall a, In a U -> exists o, src a = Some o /\ forall t ks k, In (t, ks) (oflds o) -> In k ks -> In k U) ->
+Theorem C04_memo_invariant : forall P src U (Q : addr -> Prop),
+  (forall a, Q a -> exists o, src a = Some o /\ forall t ks k, In (t, ks) (oflds o) -> In k ks -> Q k) ->
+  (forall a, Q a -> In a U) ->
   (forall a o, src a = Some o -> p_late P (p_cmap P (ocls o)) = None) ->
-  forall fuel a s, Inv P src s -> In a U -> length (unmemo U s) < fuel ->
-  exists d s', walk P src fuel a s = Some (d, s') /\ ext P src s s' /\ Inv P src s' /\ mlook a s' = Some d.
+  forall fuel a s, Inv P src Q s -> Q a -> length (unmemo U s) < fuel ->
+  exists d s', walk P src fuel a s = Some (d, s') /\ ext P src s s' /\ Inv P src Q s' /\ mlook a s' = Some d.
 Proof. exact walk_ok. Qed.
 
 (* what the Spec means: an isomorphism is a bijection between the reachable parts *)
